@@ -195,7 +195,45 @@ pub fn run_c13(ctx: &Ctx) -> Report {
     run_suite(&mut rep, &mut rng, ctx.n(200, 4000), &Suite { id: "C13", opts: GenOpts { faults: false, subsume: true, delete: true, pushpop: false, ncmds: 12 }, threads: 1, pairs: false });
     run_suite(&mut rep, &mut rng, ctx.n(40, 800), &Suite { id: "C13", opts: GenOpts { faults: false, subsume: true, delete: true, pushpop: false, ncmds: 10 }, threads: 4, pairs: false });
     subsume_join_scenarios(&mut rep, &mut rng, ctx.n(60, 1200));
+    subsume_merge_orders(&mut rep);
     rep
+}
+
+/// Directed, exhaustive over a small space: two congruent rows `F(a)`, `F(b)` of which ONE is subsumed are merged by
+/// `(union a b)`; the merged row must stay subsumed whichever of the four terms was created first (which decides
+/// which id is the representative and which row is the resident one in the merge), whichever row was subsumed and
+/// in whichever order the union names its arguments — and the same one level up (`G (F a)` / `G (F b)`).
+fn subsume_merge_orders(rep: &mut Report) {
+    const HDR: &str = "(sort E)\n(constructor A () E)\n(constructor B () E)\n(constructor F (E) E)\n(constructor G (E) E)\n(relation Hit (E))\n(ruleset r)\n(rule ((= x (F y))) ((Hit x)) :ruleset r)\n(rule ((= x (G y))) ((Hit x)) :ruleset r)\n";
+    let bases: Vec<egglog::EGraph> = vec![egglog::EGraph::default(), egglog::EGraph::default().with_num_threads(4)];
+    let items = ["(A)", "(B)", "(F (A))", "(F (B))"];
+    // all 24 creation orders
+    let mut perms: Vec<Vec<usize>> = vec![]; let mut idx = vec![0usize, 1, 2, 3];
+    fn heap(k: usize, a: &mut Vec<usize>, out: &mut Vec<Vec<usize>>) { if k == 1 { out.push(a.clone()); return; } for i in 0..k { heap(k - 1, a, out); if k % 2 == 0 { a.swap(i, k - 1); } else { a.swap(0, k - 1); } } }
+    heap(4, &mut idx, &mut perms);
+    for perm in &perms {
+        for (dead, outer) in [("(F (A))", false), ("(F (B))", false), ("(G (F (A)))", true), ("(G (F (B)))", true)] {
+            for un in ["(union (A) (B))", "(union (B) (A))"] {
+                let mut prog = String::from(HDR);
+                for i in perm { prog.push_str(items[*i]); prog.push('\n'); }
+                if outer { prog.push_str(if perm[0] % 2 == 0 { "(G (F (B)))\n(G (F (A)))\n" } else { "(G (F (A)))\n(G (F (B)))\n" }); }
+                // the rows matched by the rules must all be subsumed: subsume the F rows too when the G level is the target
+                prog.push_str(&format!("(subsume {dead})\n"));
+                let others: Vec<&str> = if outer { vec!["(F (A))", "(F (B))"] } else { vec![] };
+                rep.evaluations += 1;
+                for (seminaive, threads) in [(true, 1usize), (false, 1), (true, 4)] {
+                    let mut eg = bases[if threads == 1 { 0 } else { 1 }].clone(); eg.seminaive = seminaive;
+                    let full = format!("{prog}{un}\n{}(run r 2)", others.iter().map(|o| format!("(subsume {o})\n")).collect::<String>());
+                    if !engine::run(&mut eg, &full).is_ok() { rep.violate("correspondence", "c13-setup", "directed subsume-merge scenario rejected".into(), json!({"program": full})); break; }
+                    // one of the two congruent rows was subsumed before the union: the merged row is subsumed, nothing may match it
+                    let hits = eg.get_size("Hit");
+                    if hits != 0 { rep.violate("property", "c13-subsumed-row-revived-by-merge", format!("after {un} merged the subsumed row {dead} with its congruent twin, a rule matched the merged row ({hits} hit(s); seminaive={seminaive}, threads={threads})"), json!({"program": full})); break; }
+                }
+                rep.note_nontrivial(&(perm, dead, un));
+            }
+        }
+    }
+    rep.count("subsume_merge_order_scenarios", (perms.len() * 8) as u64);
 }
 
 /// Directed: a rule whose body joins 1..5 atoms and can only fire through ONE row, which has been subsumed (at top
